@@ -317,6 +317,48 @@ func c11Families(thorough bool) []c11Family {
 				Rewards: cidlink.Link{Cid: c11Cids[ix[6]]}}
 		}},
 	}
+	// long lists: an epoch has up to 432 000 slots, so a Subset may list hundreds of thousands of blocks; the
+	// lengths straddle the element limit a CBOR library applies by default (131 072)
+	longLens := []int{1000, 131072, 131073, 200000}
+	longLinks := func(n int) ipldbindcode.List__Link {
+		out := make(ipldbindcode.List__Link, 0, n)
+		for k := 0; k < n; k++ {
+			out = append(out, cidlink.Link{Cid: c11Cids[(k%2)*4]}) // two 36-byte CIDs
+		}
+		return out
+	}
+	fams = append(fams,
+		c11Family{Name: "Epoch.long", Kind: KindEpoch, Dims: []int{len(longLens)}, Dev: -1, Build: func(ix []int) interface{} {
+			return &ipldbindcode.Epoch{Kind: int(KindEpoch), Epoch: 1, Subsets: longLinks(longLens[ix[0]])}
+		}},
+		c11Family{Name: "Subset.long", Kind: KindSubset, Dims: []int{len(longLens)}, Dev: -1, Build: func(ix []int) interface{} {
+			return &ipldbindcode.Subset{Kind: int(KindSubset), First: 1, Last: 2, Blocks: longLinks(longLens[ix[0]])}
+		}},
+		c11Family{Name: "Entry.long", Kind: KindEntry, Dims: []int{len(longLens)}, Dev: -1, Build: func(ix []int) interface{} {
+			return &ipldbindcode.Entry{Kind: int(KindEntry), NumHashes: 1, Hash: c11Bytes(0), Transactions: longLinks(longLens[ix[0]])}
+		}},
+		c11Family{Name: "Block.long", Kind: KindBlock, Dims: []int{2, len(longLens)}, Dev: -1, Build: func(ix []int) interface{} {
+			b := baseBlock()
+			if ix[0] == 0 {
+				b.Entries = longLinks(longLens[ix[1]])
+			} else {
+				b.Shredding = make(ipldbindcode.List__Shredding, longLens[ix[1]])
+				for k := range b.Shredding {
+					b.Shredding[k] = ipldbindcode.Shredding{EntryEndIdx: k % 25, ShredEndIdx: -1}
+				}
+			}
+			return &b
+		}},
+	)
+	if thorough {
+		fams = append(fams, c11Family{Name: "DataFrame.long", Kind: KindDataFrame, Dims: []int{len(longLens)}, Dev: -1, Build: func(ix []int) interface{} {
+			f := full.build(make([]int, 5))
+			l := longLinks(longLens[ix[0]])
+			pl := &l
+			f.Next = &pl
+			return &f
+		}})
+	}
 	return fams
 }
 
@@ -856,7 +898,7 @@ func TestVerif_C11(t *testing.T) {
 	// 16 worker processes share the machine: keep each one (and its garbage collector) on two threads
 	runtime.GOMAXPROCS(2)
 	debug.SetGCPercent(400)
-	R.Rule = "case = one typed node value: full product of the per-field alphabets for Epoch, Subset, Entry, Rewards, Block.SlotMeta, Block.Shredding (thorough: DataFrame too); every value within k field deviations of a base value for DataFrame, Transaction, Block; plus every node of fixtures/*.car and every embedded test vector. The value is encoded by the reference encoder (ipld-prime bindnode + dag-cbor) and decoded by _Decode<K>Fast, _Decode<K>Classic, Decode<K>, DecodeAny and the 6 fast decoders of the other kinds; non-trivial = the value differs from the family's base value (or is a corpus node); a value the reference encoder or reference decoder refuses is counted as skipped"
+	R.Rule = "case = one typed node value: full product of the per-field alphabets for Epoch, Subset, Entry, Rewards, Block.SlotMeta, Block.Shredding (thorough: DataFrame too); every value within k field deviations of a base value for DataFrame, Transaction, Block; link and shredding lists of 1 000, 131 072, 131 073 and 200 000 elements in Epoch, Subset, Entry and Block (thorough: DataFrame.next too); plus every node of fixtures/*.car and every embedded test vector. The value is encoded by the reference encoder (ipld-prime bindnode + dag-cbor) and decoded by _Decode<K>Fast, _Decode<K>Classic, Decode<K>, DecodeAny and the 6 fast decoders of the other kinds; non-trivial = the value differs from the family's base value (or is a corpus node); a value the reference encoder or reference decoder refuses is counted as skipped"
 	thorough := vkit.Thorough()
 	fams := c11Families(thorough)
 	R.Bounds["int_alphabet"] = c11Ints
